@@ -113,7 +113,7 @@ func zzFile() CDRFile {
 
 // C14: Decoding(Encoding(f)) == f.
 //
-//gosx:property=C14 tier=quick shards=6 p.maxrec=1 p.maxrec.thorough=3
+//gosx:property=C14 tier=quick shards=6 p.maxrec=2 p.maxrec.thorough=3
 func ZZ_C14_RoundTrip() {
 	f := zzFile()
 	f.Encoding("/tmp/zz_c14.cdr")
@@ -253,7 +253,7 @@ func zzTSEq(a zzRefTS, b CdrHdrTimeStamp) bool {
 
 // C15: the bytes written follow the TS 32.297 layout.
 //
-//gosx:property=C15 tier=quick shards=6 p.maxrec=1 p.maxrec.thorough=3
+//gosx:property=C15 tier=quick shards=6 p.maxrec=2 p.maxrec.thorough=3
 func ZZ_C15_Layout() {
 	f := zzFile()
 	f.Encoding("/tmp/zz_c15.cdr")
